@@ -131,8 +131,13 @@ fn menu_split(st: &GenState, cfg: &GenCfg) -> Vec<Step> {
     if last != first {
         m.push(Step::Filter(E::bin(Op::Gt, E::Col(last), E::Int(0))));
         m.push(Step::Select(vec![col_item(first), col_item(last)]));
+        // a projection that drops the first column (a sort key, a group key)
+        m.push(Step::Select(vec![col_item(last)]));
     }
     m.push(Step::Sort(vec![(false, E::Col(first))]));
+    if last != first {
+        m.push(Step::Sort(vec![(true, E::Col(last))]));
+    }
     if st.ordered {
         m.push(Step::Take(Some(1), Some(2)));
     }
@@ -150,6 +155,19 @@ fn menu_split(st: &GenState, cfg: &GenCfg) -> Vec<Step> {
     let last = newest.unwrap_or(last);
     m.push(Step::Aggregate(vec![("n".into(), Agg::CountThis, None), ("s".into(), Agg::Sum, Some(last))]));
     m.push(Step::Aggregate(vec![("s".into(), Agg::Sum, Some(first))]));
+    m.push(Step::Aggregate(vec![("c".into(), Agg::SumPlusCount, Some(last))]));
+    // grouping by the newest computed column (a constant, when it is `z`)
+    if let Some(nw) = newest {
+        // (aliases of one tuple are in scope for its later items: keep `n` / `s` away from frames that hold them)
+        if nw != first && !f.cols.iter().any(|c| matches!(c.name.as_deref(), Some("n") | Some("s"))) {
+            let (gf, map) = group_inner_frame(f, &[nw]);
+            if let Some(pos) = map.iter().position(|&i| i == first) {
+                if gf.refname(pos).is_some() {
+                    m.push(Step::Group { keys: vec![nw], inner: vec![Step::Aggregate(vec![("n".into(), Agg::CountThis, None), ("s".into(), Agg::Sum, Some(pos))])] });
+                }
+            }
+        }
+    }
     if last != first && f.named(first) != Some("s") {
         m.push(Step::Group { keys: vec![first], inner: vec![Step::Aggregate(vec![("s".into(), Agg::Sum, Some({
             // index of `last` inside the group's inner frame (keys removed)
@@ -384,6 +402,7 @@ pub fn menu(st: &GenState, prog: &Program, cfg: &GenCfg) -> Vec<Step> {
     }
     if !order {
         if let Some(&i) = r2.first() {
+            m.push(Step::Aggregate(vec![("c".into(), Agg::SumPlusCount, Some(i))]));
             m.push(Step::Aggregate(vec![("m".into(), Agg::Min, Some(i)), ("x".into(), Agg::Max, Some(i))]));
             m.push(Step::Aggregate(vec![("v".into(), Agg::Average, Some(i)), ("n".into(), Agg::Count, Some(i))]));
         }
